@@ -88,4 +88,3 @@ func c08TemplateHazard(ctx *core.Ctx, cc *CC) {
 		sprintf("%d call site(s); pattern %s; hazardous placeholders: %v; single pass: %v", n, pattern, hazardous, single),
 		sprintf("%v and that placeholder matches the variable pattern %s, but Template does not substitute in one pass: from the second variable on, the placeholder just inserted is found again and later variables stay in the topic — that language's topic differs from the others' (or the generated format call fails)", hazardous, pattern))
 }
-
